@@ -515,7 +515,11 @@ class Sandbox:
         self.feedback = runtime_error_function(exception=self.exception, context=[context],
                                                traceback=traceback, location=traceback.line_number,
                                                report=self.report, priority=priority)
-        self.exception.feedback = self.feedback
+        try:
+            self.exception.feedback = self.feedback
+        except Exception:
+            # The student's exception class may refuse new attributes
+            pass
         return False
 
     def clear_exception(self):
